@@ -650,7 +650,7 @@ static void on_sanitizer_death()
 }
 extern "C" __attribute__((used)) const char *__asan_default_options()
 {
-  return "exitcode=77:detect_leaks=0:allocator_may_return_null=1:handle_segv=0:handle_sigbus=0:handle_abort=0:handle_sigfpe=0:handle_sigill=0:detect_stack_use_after_return=0:max_allocation_size_mb=4096";
+  return "exitcode=77:detect_leaks=0:allocator_may_return_null=1:handle_segv=0:handle_sigbus=0:handle_abort=0:handle_sigfpe=0:handle_sigill=0:detect_stack_use_after_return=0:max_allocation_size_mb=20480";
 }
 extern "C" __attribute__((used)) const char *__ubsan_default_options() { return "halt_on_error=1:print_stacktrace=0"; }
 #endif
